@@ -145,44 +145,82 @@ Proof.
   apply IH, sorted_map_apply, S.
 Qed.
 
+(* every binding of the change map is one of the block's writes *)
+Lemma cm_fold_in : forall (ws m : list change) c,
+  In c (fold_left (fun m c => sm_set (fst c) (snd c) m) ws m) -> In c ws \/ In c m.
+Proof.
+  induction ws as [|w r IH]; intros m c HI; simpl in *; [auto|].
+  destruct (IH _ _ HI) as [H|H]; [auto|].
+  assert (K : forall (m0 : list change) k v x, In x (sm_set k v m0) -> x = (k, v) \/ In x m0).
+  { induction m0 as [|[k0 v0] t IHm]; simpl; intros k v x Hx; [destruct Hx as [<-|[]]; auto|].
+    destruct (bcmp k k0); simpl in Hx.
+    - destruct Hx as [<-|Hx]; auto.
+    - destruct Hx as [<-|Hx]; auto.
+    - destruct Hx as [<-|Hx]; [auto|]. destruct (IHm _ _ _ Hx); auto. }
+  destruct (K _ _ _ _ H) as [->|H']; [left; left; destruct w; reflexivity|auto].
+Qed.
+Lemma cm_forall (P : change -> Prop) ws : Forall P ws -> Forall P (cm_of_writes ws).
+Proof.
+  intros F. apply Forall_forall. intros c HI. destruct (cm_fold_in _ _ _ HI) as [H|[]].
+  rewrite Forall_forall in F. auto.
+Qed.
+
 Section Interface.
-  (* the abstract trie: what C03 needs from the concrete model of C10 (coq/Trie) *)
+  (* the abstract trie: what C03 needs from a model of pkg/core/mpt; instantiated by the concrete model of C10
+     (coq/Trie) in StateRoot/Concrete.v, where every hypothesis below is proved from the C10 theorems *)
   Variable trie : Type.
+  Variable hashT : Type.                                 (* state roots *)
   Variable empty_trie : trie.
   Variable content : trie -> smap.                       (* the key/value pairs a trie holds, in key order *)
   Variable apply_batch : trie -> list change -> trie.    (* Trie.PutBatch on a batch of (nibble path, value-or-delete) *)
-  Variable root : trie -> N.                             (* Trie.StateRoot *)
+  Variable root : trie -> hashT.                         (* Trie.StateRoot *)
   Variable get_proof : trie -> bytes -> option (list bytes).
-  Variable verify_proof : N -> bytes -> list bytes -> option val.
+  Variable verify_proof : hashT -> bytes -> list bytes -> option val.
   Variable Collision : Prop.                             (* two distinct byte strings with the same double SHA-256 are exhibited *)
+  Variable tinv : trie -> Prop.                          (* invariant of the tries a node builds (normal form, ...) *)
+  Variable ok : change -> Prop.                          (* admissible write (key is a byte string within the limits, ...) *)
 
+  Hypothesis inv_empty : tinv empty_trie.
   Hypothesis content_empty : content empty_trie = [].
   (* C10 batch_content: PutBatch of a sorted duplicate-free batch changes the content as the batch says *)
-  Hypothesis batch_content : forall t b, ssorted b -> ssorted (content t) ->
+  Hypothesis batch_content : forall t b, tinv t -> ssorted b -> Forall ok b -> ssorted (content t) ->
+    tinv (apply_batch t (map nib_change b)) /\
     content (apply_batch t (map nib_change b)) = map_apply b (content t).
 
-  (* one block: writes [ws] in execution order; [m] is the order in which Go happened to enumerate the map *)
+  (* one block: admissible writes [ws] in execution order; [m] is the order in which Go happened to enumerate the map *)
   Inductive trie_run : trie -> list (list change) -> trie -> Prop :=
   | run_nil t : trie_run t [] t
   | run_cons t ws m bs t' :
+      Forall ok ws ->
       Permutation (map stripc m) (cm_of_writes ws) ->
       trie_run (apply_batch t (to_batch m)) bs t' ->
       trie_run t (ws :: bs) t'.
   Definition reachable (t : trie) : Prop := exists bs, trie_run empty_trie bs t.
 
   Theorem root_commits_from : forall bs t t',
-    ssorted (content t) -> trie_run t bs t' -> content t' = storage_after (content t) bs.
+    tinv t -> ssorted (content t) -> trie_run t bs t' -> tinv t' /\ content t' = storage_after (content t) bs.
   Proof.
-    induction bs as [|ws r IH]; intros t t' S R; inv R; [reflexivity|].
-    assert (E : content (apply_batch t (to_batch m)) = map_apply ws (content t)).
-    { rewrite (to_batch_spec m (cm_of_writes ws) (cm_sorted ws) H2).
-      rewrite batch_content by (try apply cm_sorted; assumption). apply map_apply_cm. assumption. }
-    rewrite (IH _ _ (eq_ind_r ssorted (sorted_map_apply ws _ S) E) H4). rewrite E. reflexivity.
+    induction bs as [|ws r IH]; intros t t' T S R;
+      [inversion R; subst; auto|inversion R as [|? ? m ? ? Hok Hperm Hrun]; subst].
+    assert (E : tinv (apply_batch t (to_batch m)) /\ content (apply_batch t (to_batch m)) = map_apply ws (content t)).
+    { rewrite (to_batch_spec m (cm_of_writes ws) (cm_sorted ws) Hperm).
+      destruct (batch_content t (cm_of_writes ws) T (cm_sorted ws) (cm_forall ok ws Hok) S) as [T1 E1].
+      split; [exact T1|]. rewrite E1. apply map_apply_cm. assumption. }
+    destruct E as [T1 E].
+    destruct (IH _ _ T1 (eq_ind_r ssorted (sorted_map_apply ws _ S) E) Hrun) as [T2 E2].
+    split; [exact T2|]. rewrite E2, E. reflexivity.
   Qed.
 
   (* root_commits: after any history of blocks the trie holds exactly contract storage *)
   Theorem root_commits bs t : trie_run empty_trie bs t -> content t = storage_after [] bs.
-  Proof. intros R. rewrite <- content_empty. apply root_commits_from; [rewrite content_empty; exact I|exact R]. Qed.
+  Proof.
+    intros R. rewrite <- content_empty.
+    apply (root_commits_from bs empty_trie t inv_empty); [rewrite content_empty; exact I|exact R].
+  Qed.
+  Lemma reachable_inv t : reachable t -> tinv t.
+  Proof.
+    intros [bs R]. apply (root_commits_from bs empty_trie t inv_empty); [rewrite content_empty; exact I|exact R].
+  Qed.
 
   (* historic_read_eq_live: point reads and ordered range reads on the trie's content are those on storage *)
   Theorem historic_read_eq_live bs t :
@@ -203,15 +241,15 @@ Section Interface.
     rewrite (root_commits _ _ R1), (root_commits _ _ R2). exact E.
   Qed.
 
-  (* C10 proof_complete / proof_sound *)
+  (* C10 proof_complete / proof_sound: both up to an exhibited collision *)
   Hypothesis proof_complete : forall t k v, reachable t -> sm_get k (content t) = Some v ->
-    exists p, get_proof t k = Some p /\ verify_proof (root t) k p = Some v.
+    exists p, get_proof t k = Some p /\ (verify_proof (root t) k p = Some v \/ Collision).
   Hypothesis proof_sound : forall t k p v, reachable t -> verify_proof (root t) k p = Some v ->
     sm_get k (content t) = Some v \/ Collision.
 
   Theorem proof_at_height_complete bs t k v :
     trie_run empty_trie bs t -> sm_get k (storage_after [] bs) = Some v ->
-    exists p, get_proof t k = Some p /\ verify_proof (root t) k p = Some v.
+    exists p, get_proof t k = Some p /\ (verify_proof (root t) k p = Some v \/ Collision).
   Proof. intros R G. apply proof_complete; [exists bs; exact R|]. rewrite (root_commits _ _ R). exact G. Qed.
 
   Theorem proof_at_height_sound bs t k p v :
@@ -227,6 +265,7 @@ Section Interface.
     trie_run empty_trie bs t -> sm_get k (storage_after [] bs) <> Some v ->
     verify_proof (root t) k p = Some v -> Collision.
   Proof. intros R N V. destruct (proof_at_height_sound bs t k p v R V) as [G|C]; [contradiction|exact C]. Qed.
+
   (* C10 C10_seek_spec (TrieStore.Seek = range query on the trie's entries, both directions, any prefix and start) *)
   Variable seek : trie -> bytes -> bytes -> bool -> smap.
   Hypothesis seek_spec : forall t P S bw, reachable t -> seek t P S bw = sm_range P S bw (content t).
@@ -236,6 +275,64 @@ Section Interface.
     trie_run empty_trie bs t -> seek t P S bw = sm_range P S bw (storage_after [] bs).
   Proof. intros R. rewrite (seek_spec t P S bw (ex_intro _ bs R)), (root_commits _ _ R). reflexivity. Qed.
 End Interface.
+
+(* the premises of the abstract theorems, named (Properties/C03.v) *)
+Definition iface_batch {trie : Type} (content : trie -> smap) (apply_batch : trie -> list change -> trie)
+  (tinv : trie -> Prop) (ok : change -> Prop) : Prop :=
+  forall t b, tinv t -> ssorted b -> Forall ok b -> ssorted (content t) ->
+    tinv (apply_batch t (map nib_change b)) /\ content (apply_batch t (map nib_change b)) = map_apply b (content t).
+Definition iface_base {trie : Type} (empty_trie : trie) (content : trie -> smap) (apply_batch : trie -> list change -> trie)
+  (tinv : trie -> Prop) (ok : change -> Prop) : Prop :=
+  tinv empty_trie /\ content empty_trie = [] /\ iface_batch content apply_batch tinv ok.
+
+Section AbstractStatements.
+  Context {trie hashT : Type} (empty_trie : trie) (content : trie -> smap) (apply_batch : trie -> list change -> trie)
+          (root : trie -> hashT) (tinv : trie -> Prop) (ok : change -> Prop).
+  Hypothesis base : iface_base empty_trie content apply_batch tinv ok.
+  Let run := trie_run trie apply_batch ok empty_trie.
+  Let reach := reachable trie empty_trie apply_batch ok.
+
+  Lemma abs_root_commits bs t : run bs t -> content t = storage_after [] bs.
+  Proof. destruct base as [A [B C]]. apply (root_commits trie empty_trie content apply_batch tinv ok A B C). Qed.
+
+  Lemma abs_historic_read_eq_live bs t : run bs t ->
+    (forall k, sm_get k (content t) = sm_get k (storage_after [] bs)) /\
+    (forall prefix start bw, sm_range prefix start bw (content t) = sm_range prefix start bw (storage_after [] bs)).
+  Proof. destruct base as [A [B C]]. apply (historic_read_eq_live trie empty_trie content apply_batch tinv ok A B C). Qed.
+
+  Lemma abs_root_function_of_storage :
+    (forall t1 t2, reach t1 -> reach t2 -> content t1 = content t2 -> root t1 = root t2) ->
+    forall bs1 bs2 t1 t2, run bs1 t1 -> run bs2 t2 -> storage_after [] bs1 = storage_after [] bs2 -> root t1 = root t2.
+  Proof.
+    destruct base as [A [B C]].
+    apply (root_function_of_storage trie hashT empty_trie content apply_batch root tinv ok A B C).
+  Qed.
+
+  Lemma abs_seek_at_height (seek : trie -> bytes -> bytes -> bool -> smap) :
+    (forall t P S bw, reach t -> seek t P S bw = sm_range P S bw (content t)) ->
+    forall bs t P S bw, run bs t -> seek t P S bw = sm_range P S bw (storage_after [] bs).
+  Proof. destruct base as [A [B C]]. apply (seek_at_height trie empty_trie content apply_batch tinv ok A B C). Qed.
+
+  Lemma abs_proof_complete (get_proof : trie -> bytes -> option (list bytes))
+        (verify_proof : hashT -> bytes -> list bytes -> option val) (Collision : Prop) :
+    (forall t k v, reach t -> sm_get k (content t) = Some v ->
+       exists p, get_proof t k = Some p /\ (verify_proof (root t) k p = Some v \/ Collision)) ->
+    forall bs t k v, run bs t -> sm_get k (storage_after [] bs) = Some v ->
+      exists p, get_proof t k = Some p /\ (verify_proof (root t) k p = Some v \/ Collision).
+  Proof.
+    destruct base as [A [B C]].
+    apply (proof_at_height_complete trie hashT empty_trie content apply_batch root get_proof verify_proof Collision tinv ok A B C).
+  Qed.
+
+  Lemma abs_proof_sound (verify_proof : hashT -> bytes -> list bytes -> option val) (Collision : Prop) :
+    (forall t k p v, reach t -> verify_proof (root t) k p = Some v -> sm_get k (content t) = Some v \/ Collision) ->
+    forall bs t k p v, run bs t -> sm_get k (storage_after [] bs) <> Some v ->
+      verify_proof (root t) k p = Some v -> Collision.
+  Proof.
+    destruct base as [A [B C]].
+    apply (no_proof_for_absent_or_other trie hashT empty_trie content apply_batch root verify_proof Collision tinv ok A B C).
+  Qed.
+End AbstractStatements.
 
 (* ---- the interface is satisfiable: the trie whose state IS its content (degenerate proofs: the "proof" carries
         the value and [Collision] is [True]); shows the hypotheses of the Interface section are consistent ---- *)
